@@ -65,17 +65,63 @@ func bit(b bool) string {
 }
 
 type c09Case struct {
-	input string
-	mk    bool
+	input   string
+	mk      bool
+	viaLoad bool // through Load(file, options) instead of convertToLogicalLines directly
 }
+
+var c09LoadPath string // scratch file for viaLoad cases
 
 // c09Impl runs the real function once and renders the observation in the oracle's format.
 func c09Impl(c c09Case) (lines []pkglint.VerifLine, shown string, panicked string) {
-	lines, eof, panicked := pkglint.VerifConvertToLogicalLines(c.input, c.mk)
+	var eof bool
+	if c.viaLoad {
+		lines, eof, panicked = pkglint.VerifLoadLines(c09LoadPath, c.input, c.mk)
+	} else {
+		lines, eof, panicked = pkglint.VerifConvertToLogicalLines(c.input, c.mk)
+	}
 	if panicked != "" {
 		return nil, "", panicked
 	}
 	return lines, bit(eof) + " " + c09ShowLines(lines), ""
+}
+
+func c09SetLoadPath(ctx *Ctx) func() {
+	if d, err := os.MkdirTemp("/dev/shm", "verif-c09load-"); err == nil {
+		c09LoadPath = filepath.Join(d, "Makefile")
+		return func() { os.RemoveAll(d) }
+	}
+	d := filepath.Join(ctx.Work, "c09load")
+	os.MkdirAll(d, 0o755)
+	c09LoadPath = filepath.Join(d, "Makefile")
+	return func() {}
+}
+
+// hostile bytes at position 0 and at line starts, loaded through Load
+var c09Hostile = []string{"\xef\xbb\xbf", "\xc3\xbc", "\x00", "\f", "\\", "\n", "a"}
+
+func c09HostileCases(maxTok int) []c09Case {
+	var out []c09Case
+	cur := []string{""}
+	seen := map[string]bool{}
+	for n := 0; ; n++ {
+		for _, s := range cur {
+			if !seen[s] {
+				seen[s] = true
+				out = append(out, c09Case{s, true, true}, c09Case{s, false, true})
+			}
+		}
+		if n == maxTok {
+			return out
+		}
+		var next []string
+		for _, s := range cur {
+			for _, t := range c09Hostile {
+				next = append(next, s+t)
+			}
+		}
+		cur = next
+	}
 }
 
 // c09Stats measures which branches of the loader an input reached, from the
@@ -138,7 +184,7 @@ func c09Stats(res *Result, c c09Case, lines []pkglint.VerifLine) (nontrivial boo
 // c09Judge turns one oracle verdict into violations.
 func c09Judge(ctx *Ctx, res *Result, c c09Case, shown, panicked, verdict string) {
 	mode := c09Mode(c.mk)
-	rep := map[string]any{"kind": "conv", "input": hx(c.input), "mk": c.mk}
+	rep := map[string]any{"kind": "conv", "input": hx(c.input), "mk": c.mk, "via_load": c.viaLoad}
 	if panicked != "" {
 		rep["impl"] = panicked
 		res.AddViolation(Violation{Key: "C09/panic/" + mode,
@@ -284,7 +330,7 @@ func c09Exhaustive(maxLen int) (int, func(int) c09Case) {
 			b[p] = c09Alphabet[i%k]
 			i /= k
 		}
-		return c09Case{string(b), mk}
+		return c09Case{string(b), mk, false}
 	}
 }
 
@@ -713,14 +759,24 @@ func c09WholeRun(ctx *Ctx, res *Result, root, path, old string) {
 // ---- entry points ----
 
 func runC09(ctx *Ctx) *Result {
-	res := &Result{Rule: "cases = (byte string, mode); exhaustive: every string of length <= L over {backslash, LF, CR, space, tab, #, a} in makefile and plain mode, then seeded random strings up to 200 bytes (property alphabet / line-structured makefile text / arbitrary bytes incl. NUL and non-ASCII), with and without final newline; non-trivial = makefile mode: some logical line has >= 2 physical lines, or ends in an even backslash run, or a continuation meets EOF; plain mode: >= 2 lines or no final newline; distinct by (string, mode). Save scripts: random text <= 80 bytes with 0-3 Autofix operations on random lines. Whole runs: pkglint -F (real binary) on the fixture package with a generated Makefile; physical lines of logical lines not named in the AUTOFIX log must be reproduced in order, a run without AUTOFIX must leave the file alone."}
+	res := &Result{Rule: "cases = (byte string, mode); exhaustive: every string of length <= L over {backslash, LF, CR, space, tab, #, a} in makefile and plain mode, then every string of <= 4 tokens over {BOM, U+00FC, NUL, FF, backslash, LF, a} loaded through Load(file, options), then seeded random strings (all through Load) up to 200 bytes (property alphabet / line-structured makefile text / arbitrary bytes incl. NUL and non-ASCII), with and without final newline; non-trivial = makefile mode: some logical line has >= 2 physical lines, or ends in an even backslash run, or a continuation meets EOF; plain mode: >= 2 lines or no final newline; distinct by (string, mode). Save scripts: random text <= 80 bytes with 0-3 Autofix operations on random lines. Whole runs: pkglint -F (real binary) on the fixture package with a generated Makefile; physical lines of logical lines not named in the AUTOFIX log must be reproduced in order, a run without AUTOFIX must leave the file alone."}
 	rng := NewRng(ctx.Seed)
 	maxLen, nrand, nsave, nwhole := 7, 30000, 5000, 80
 	if ctx.Tier == "thorough" {
 		maxLen, nrand, nsave, nwhole = 8, 1000000, 100000, 2000
 	}
+	defer c09SetLoadPath(ctx)()
 	nexh, getExh := c09Exhaustive(maxLen)
 	c09RunGen(ctx, res, nexh, getExh, "exhaustive", nil)
+	if res.Broken != "" {
+		return res
+	}
+	// second domain, through Load: BOM, other multi-byte sequences, NUL, FF at position 0 and at line starts
+	hostileTok := 4
+	if ctx.Tier == "thorough" {
+		hostileTok = 6
+	}
+	c09Run(ctx, res, c09HostileCases(hostileTok), "hostile_via_load", nil)
 	if res.Broken != "" {
 		return res
 	}
@@ -729,7 +785,7 @@ func runC09(ctx *Ctx) *Result {
 	distinct := map[c09Case]bool{}
 	var rnd []c09Case
 	for len(rnd) < nrand {
-		c := c09Case{c09RandomText(rng, 200), rng.Chance(70)}
+		c := c09Case{c09RandomText(rng, 200), rng.Chance(70), true}
 		if len(c.input) <= maxLen && strings.Trim(c.input, string(c09Alphabet)) == "" {
 			continue // already in the exhaustive part
 		}
@@ -790,7 +846,9 @@ func replayC09(ctx *Ctx, rep map[string]any) *Result {
 	mk, _ := rep["mk"].(bool)
 	switch rep["kind"] {
 	case "conv":
-		c09Run(ctx, res, []c09Case{{unhx(input), mk}}, "replay", nil)
+		via, _ := rep["via_load"].(bool)
+		c09SetLoadPath(ctx)
+		c09Run(ctx, res, []c09Case{{unhx(input), mk, via}}, "replay", nil)
 	case "wholerun":
 		mf, _ := rep["makefile"].(string)
 		root := filepath.Join(ctx.Work, "c09tree")
